@@ -809,24 +809,30 @@ fn exec_make_mut(slot: usize) -> R {
 
 fn exec_clone_dead(k: usize, clone_from: bool) -> R {
     // only meaningful inside a destructor: clone own stored handle k whose target is dead
-    let p = world::with(|w| -> Result<(*const Rc<Node>, Option<*const Rc<Node>>, ObjId, ObjId), String> {
+    let p = world::with(|w| -> Result<(*const Node, Option<usize>, ObjId, ObjId), String> {
         let &(me, np) = w.dying_stack.last().ok_or("clonedead: not in a destructor")?;
         let node = unsafe { &*np };
         let v = node.out.try_borrow().map_err(|_| "clonedead: busy")?;
-        let h = v.get(k).ok_or("clonedead: no such stored handle")?;
+        if k >= v.len() {
+            return inv("clonedead: no such stored handle");
+        }
         let held = &w.objs[me as usize].held;
         let t = *held.get(k).ok_or("clonedead: ledger")?;
         if w.objs[t as usize].state == St::Alive {
             return inv("clonedead: target is alive");
         }
         // a second own handle to the same destroyed target, if any
-        let other = (0..held.len().min(v.len())).find(|&j| j != k && held[j] == t).map(|j| &v[j] as *const Rc<Node>);
-        Ok((h as *const Rc<Node>, other, me, t))
+        let other = (0..held.len().min(v.len())).find(|&j| j != k && held[j] == t);
+        Ok((np, other, me, t))
     })?;
-    let (hp, other, me, t) = p;
+    let (np, other, me, t) = p;
+    // element pointers derived from one raw pointer to the vector's storage (nobody else looks at the
+    // vector while the destructor script runs)
+    let base: *mut Rc<Node> = unsafe { (*(*np).out.as_ptr()).as_mut_ptr() };
+    let hp: *const Rc<Node> = unsafe { base.add(k) };
     if clone_from {
         // `Clone::clone_from` is a cloning entry point too: assigning a dead handle from a dead handle
-        // (to the same destroyed object), or a live one from a dead one, must abort just the same
+        // (to the same destroyed object) must abort just the same
         {
             let out = std::io::stdout();
             let mut o = out.lock();
@@ -834,16 +840,14 @@ fn exec_clone_dead(k: usize, clone_from: bool) -> R {
             let _ = o.flush();
         }
         match other {
-            Some(src) => {
+            Some(j) => {
                 let _l = LibGuard::enter();
-                // the destination is written through a pointer derived from the RefCell's storage:
-                // nobody else looks at it while the destructor script runs
-                unsafe { Clone::clone_from(&mut *(hp as *mut Rc<Node>), &*src) };
+                unsafe { Clone::clone_from(&mut *base.add(k), &*(base.add(j) as *const Rc<Node>)) };
             }
             None => {
+                // destination: a bitwise copy of the same dead handle value
                 let mut dst = std::mem::ManuallyDrop::new(unsafe { std::ptr::read(hp) });
                 let _l = LibGuard::enter();
-                // destination and source are the same dead handle value
                 unsafe { Clone::clone_from(&mut *dst, &*hp) };
             }
         }
